@@ -38,13 +38,17 @@ vars == <<line, site, i, st, es, elems, best, amp, pkgr, trailc, res>>
 Sites == {"typeDoc", "groupDoc", "specDoc", "funcDoc", "methodDoc", "fieldDocImm", "fieldDocPlain", "embeddedDocImm", "fieldLineImm",
           "trailingType", "localType", "varDoc", "constDoc", "ifaceMethodDoc", "detachedDoc", "blockDoc", "blockSlashLine", "insideBody",
           "groupSecondSpec",     \* the comment documents the *previous* spec of the same type (...) group
-          "afterDirectiveDoc"}   \* the comment trails the previous declaration; the item's own doc is a //go: directive only
+          "afterDirectiveDoc",   \* the comment trails the previous declaration; the item's own doc is a //go: directive only
+          "fieldDocImmMulti",    \* doc of a field declaration with two names (`F, G int`) of an @immutable struct: applies to both names
+          "typeDocCaseTwins"}    \* typeDoc with a list of two names that differ only in letter case (`@constructor a, A`): both are kept
 Effective(s, kw) ==
-  CASE kw \in {"implements", "constructor", "immutable"} -> s \in {"typeDoc", "groupDoc", "specDoc"}
-    [] kw \in {"testonly", "packageonly"} -> s \in {"typeDoc", "groupDoc", "specDoc", "funcDoc", "methodDoc"}
-    [] kw = "mutable" -> s = "fieldDocImm"
+  CASE kw \in {"implements", "constructor", "immutable"} -> s \in {"typeDoc", "groupDoc", "specDoc", "typeDocCaseTwins"}
+    [] kw \in {"testonly", "packageonly"} -> s \in {"typeDoc", "groupDoc", "specDoc", "funcDoc", "methodDoc", "typeDocCaseTwins"}
+    [] kw = "mutable" -> s \in {"fieldDocImm", "fieldDocImmMulti"}
     [] OTHER -> FALSE
 Canonical(kw) == CASE kw = "implements" -> <<"SP", "L">> [] kw = "constructor" -> <<"SP", "L">> [] kw = "packageonly" -> <<"SP", "L">> [] OTHER -> <<>>
+\* "Lc": the previous letter again in the other letter case (only in the explicit lines of the sites mode)
+CaseTwins(kw) == IF kw \in {"constructor", "packageonly"} THEN <<"SP", "L", "CO", "SP", "Lc">> ELSE Canonical(kw)
 
 Classes == {"SP", "L", "U", "D", "SL", "DA", "DO", "CO", "AM", "X", "N", "K2"}
 Keywords == {"implements", "constructor", "immutable", "testonly", "mutable", "packageonly", "ignore"}
@@ -56,12 +60,12 @@ BlankPre(p) == p \in {"", "sp", "tab", "spsp"}
 Simple == {"immutable", "testonly", "mutable"}
 Lists == {"constructor", "packageonly", "ignore"}
 
-IsW(c) == c \in {"L", "U", "D"}
-ElemCh(kw, c) == CASE kw = "constructor" -> c \in {"L", "U", "D"}
-                   [] kw = "packageonly" -> c \in {"L", "U", "D", "SL", "DA", "DO"}
-                   [] kw = "ignore" -> c \in {"L", "D"}
+IsW(c) == c \in {"L", "Lc", "U", "D"}
+ElemCh(kw, c) == CASE kw = "constructor" -> c \in {"L", "Lc", "U", "D"}
+                   [] kw = "packageonly" -> c \in {"L", "Lc", "U", "D", "SL", "DA", "DO"}
+                   [] kw = "ignore" -> c \in {"L", "Lc", "D"}
                    [] OTHER -> FALSE
-ElemStart(kw, c) == IF kw = "constructor" THEN c \in {"L", "U"} ELSE ElemCh(kw, c)
+ElemStart(kw, c) == IF kw = "constructor" THEN c \in {"L", "Lc", "U"} ELSE ElemCh(kw, c)
 
 None == [rec |-> "no", ptr |-> FALSE, pkg |-> <<>>, names |-> <<>>]
 Yes(ptr, pkg, names) == [rec |-> "yes", ptr |-> ptr, pkg |-> pkg, names |-> names]
@@ -135,7 +139,7 @@ InitLine ==
      /\ site = "doc"
   \/ /\ Mode = "sites"
      /\ \E kw \in Keywords \ {"ignore"}, s \in Sites :
-          line = [opener |-> "//", pre |-> "sp", kw |-> kw, rest |-> Canonical(kw)] /\ site = s
+          line = [opener |-> "//", pre |-> "sp", kw |-> kw, rest |-> IF s = "typeDocCaseTwins" THEN CaseTwins(kw) ELSE Canonical(kw)] /\ site = s
 
 Init == /\ InitLine
         /\ i = 1 /\ st = "begin" /\ es = 0 /\ elems = <<>> /\ best = <<>> /\ amp = FALSE /\ pkgr = <<>> /\ trailc = FALSE
